@@ -548,6 +548,21 @@ func TestVerifC05Kills(t *testing.T) {
 		if cc.X.Streams < 2 {
 			cc.X.Streams = 2 + len(cc.Chain)%3
 		}
+		if rapid.IntRange(0, 3).Draw(rt, "regeometry") == 0 {
+			// an attempt that left marks, then an attempt with another chunk size under which some
+			// file keeps its chunk count (the old marks then describe other byte ranges)
+			first := cc.Chain[0]
+			first.Kind, first.FlushEvery, first.Site = "kill", 1, ""
+			if first.At < 0.4 {
+				first.At += 0.4
+			}
+			second := first
+			second.At = frac(rt, "regeometry_at")
+			second.ChunkDelta = 99
+			second.Site = rapid.SampledFrom([]string{"", "recv.filebegin.registered", "recv.chunk.marked", "sidecar.flush.renamed"}).Draw(rt, "regeometry_site")
+			cc.Chain = []interruption{first, second}
+			rec.Class("chunk-size-changed-keeping-a-chunk-count")
+		}
 		sig, detail, st, err := runHistory(cc, "C05")
 		if err != nil {
 			rec.Class("not-run")
